@@ -272,3 +272,147 @@ func sharedNames(s map[*types.Named]bool) []string {
 	sort.Strings(out)
 	return out
 }
+
+// unitWithHelpers: fn, the closures nested in it, and the functions of the same package they call
+// statically (two levels): what a maintainer would regard as "this function", however it is cut up.
+func unitWithHelpers(p *an.Prog, fn *ssa.Function) []*ssa.Function {
+	seen := map[*ssa.Function]bool{}
+	var out []*ssa.Function
+	var add func(f *ssa.Function, depth int)
+	add = func(f *ssa.Function, depth int) {
+		if f == nil || seen[f] || f.Blocks == nil {
+			return
+		}
+		seen[f] = true
+		out = append(out, f)
+		for _, a := range f.AnonFuncs {
+			add(a, depth)
+		}
+		if depth >= 2 {
+			return
+		}
+		an.EachCall(f, func(ci ssa.CallInstruction) {
+			c := ci.Common().StaticCallee()
+			if c != nil && p.InModule(c) && c.Pkg != nil && an.Outermost(fn).Pkg == c.Pkg && c.Parent() == nil {
+				add(c, depth+1)
+			}
+		})
+	}
+	add(fn, 0)
+	return out
+}
+
+// callSitesOf: the static call sites of fn in the module.
+func callSitesOf(p *an.Prog, fn *ssa.Function) []*ssa.Call {
+	var out []*ssa.Call
+	for _, f := range p.Funcs {
+		an.EachInstr(f, func(in ssa.Instruction) {
+			if c, ok := in.(*ssa.Call); ok && c.Call.StaticCallee() == fn {
+				out = append(out, c)
+			}
+		})
+	}
+	return out
+}
+
+// stepIP is StepValue made interprocedural within the module: the result of a call to a module
+// function comes from that function's returns; a parameter comes from the arguments at the
+// function's call sites.
+func stepIP(p *an.Prog) an.StepFn {
+	return func(v ssa.Value) []ssa.Value {
+		if r := an.StepValue(v); r != nil {
+			return r
+		}
+		retsOf := func(callee *ssa.Function, idx int) []ssa.Value {
+			var out []ssa.Value
+			an.EachInstr(callee, func(in ssa.Instruction) {
+				if ret, ok := in.(*ssa.Return); ok && idx < len(ret.Results) {
+					out = append(out, resultsOf(ret)[idx])
+				}
+			})
+			return out
+		}
+		switch x := v.(type) {
+		case *ssa.Call:
+			if callee := x.Call.StaticCallee(); callee != nil && p.InModule(callee) && callee.Blocks != nil && callee.Signature.Results().Len() == 1 {
+				if out := retsOf(callee, 0); len(out) > 0 {
+					return out
+				}
+			}
+		case *ssa.Extract:
+			if c, ok := x.Tuple.(*ssa.Call); ok {
+				if callee := c.Call.StaticCallee(); callee != nil && p.InModule(callee) && callee.Blocks != nil {
+					if out := retsOf(callee, x.Index); len(out) > 0 {
+						return out
+					}
+				}
+			}
+		case *ssa.Parameter:
+			fn := x.Parent()
+			if fn == nil || fn.Object() == nil || (fn.Object().Exported() && fn.Signature.Recv() == nil) {
+				return nil // exported functions have callers we cannot see
+			}
+			idx := -1
+			for i, pp := range fn.Params {
+				if pp == x {
+					idx = i
+				}
+			}
+			var out []ssa.Value
+			for _, cs := range callSitesOf(p, fn) {
+				if idx >= 0 && idx < len(cs.Call.Args) {
+					out = append(out, cs.Call.Args[idx])
+				}
+			}
+			if len(out) > 0 {
+				return out
+			}
+		}
+		return nil
+	}
+}
+
+// findCallIP finds the single call named name in fn or in one of its same-package helpers; bind
+// maps a value used at that call back to fn's own values (a helper's parameter -> the argument fn passes).
+func findCallIP(p *an.Prog, fn *ssa.Function, name string) (*ssa.Call, func(ssa.Value) ssa.Value) {
+	id := func(v ssa.Value) ssa.Value { return v }
+	if cs := callsNamed(fn, name); len(cs) == 1 {
+		return cs[0], id
+	} else if len(cs) > 1 {
+		return nil, id
+	}
+	var found *ssa.Call
+	var bind func(ssa.Value) ssa.Value
+	n := 0
+	an.EachInstr(fn, func(in ssa.Instruction) {
+		site, ok := in.(*ssa.Call)
+		if !ok {
+			return
+		}
+		h := site.Call.StaticCallee()
+		if h == nil || !p.InModule(h) || h.Pkg != fn.Pkg || h.Blocks == nil {
+			return
+		}
+		cs := callsNamed(h, name)
+		if len(cs) != 1 {
+			return
+		}
+		n++
+		found = cs[0]
+		bind = func(v ssa.Value) ssa.Value {
+			v = an.Strip(v)
+			if par, ok := v.(*ssa.Parameter); ok {
+				for i, pp := range h.Params {
+					if pp == par && i < len(site.Call.Args) {
+						return site.Call.Args[i]
+					}
+				}
+			}
+			return v
+		}
+	})
+	if n == 1 {
+		return found, bind
+	}
+	return nil, id
+}
